@@ -5,13 +5,32 @@ import itertools
 from .. import cfgrun, cfgstream, core, schemafam as F
 
 RULE = ("all sequences up to the tier's length over {define n v, use n, include-of-a-suffix} with 3 names in mixed case "
-        "and values {literal, '', '$other', '$$other', '${other}x', '${OTHER}y', ' padded '}, uses written $name and ${Name}, up to 2 include levels; each run twice "
+        "and values {literal, '', '$other', '$$other', '${other}x', '${OTHER}y', ' padded '} plus spellings of them that differ only in letter "
+        "case ('Lit', '$$B'), uses written $name and ${Name}, up to 2 include levels; plus the re-definition matrix: every ordered "
+        "pair (current value, new value) of those values and their case variants, by literal and through references, second "
+        "definition in the same / an included / the including resource, a use before and after it; each run twice "
         "against one schema object; oracle = reference fold of the property statement (expand once with earlier "
         "definitions; redefinition accepted iff expanded value equal); non-trivial = at least one define and one use; "
         "distinct by sequence")
 
 NAMES = ["a", "B", "Ab"]
-VALUES = ["lit", "", "$b", "$$b", "${a}x", "${B}y", "  padded "]
+BASE_VALUES = ["lit", "", "$b", "$$b", "${a}x", "${B}y", "  padded "]
+
+
+def case_variants(v):
+    """spellings of v that differ from it ONLY in the case of letters (a reference name in another case is the SAME
+    reference, text in another case is another value: the reference fold decides which)"""
+    out = []
+    for w in (v.swapcase(), "".join(c.swapcase() if c.isalpha() and not v[:i].strip(" ${") else c for i, c in enumerate(v))):
+        if w != v and w not in out:
+            out.append(w)
+    return out
+
+
+# the sequences draw from the property's value set plus two near-equal spellings (text and escaped-$ text in another case)
+VALUES = BASE_VALUES + ["Lit", "$$B"]
+# the re-definition matrix uses every value with all its case variants
+NEAR_VALUES = BASE_VALUES + [w for v in BASE_VALUES for w in case_variants(v)]
 
 
 def ref_subst(defs, s):
@@ -102,7 +121,7 @@ def sequences(maxlen, rng, budget):
     # exhaustive up to length 2, then all sequences of the given length over a reduced atom set, then sampled
     for n in range(1, 3):
         yield from itertools.product(atoms, repeat=n)
-    small = [("define", "a", "lit"), ("define", "A", "$$b"), ("define", "a", "$b"), ("define", "b", "zz"),
+    small = [("define", "a", "lit"), ("define", "A", "$$b"), ("define", "a", "$$B"), ("define", "a", "$b"), ("define", "b", "zz"),
              ("define", "B", ""), ("define", "a", "${a}x"), ("define", "Ab", "  padded "), ("use", "a"), ("use", "B"), ("useb", "aB")]
     for n in range(3, maxlen + 1):
         if len(small) ** n <= budget:
@@ -110,6 +129,41 @@ def sequences(maxlen, rng, budget):
         else:
             for _ in range(budget):
                 yield tuple(rng.choice(atoms) for _ in range(n))
+
+
+PLACEMENTS = ["same-resource", "second-in-included", "first-in-included", "second-two-levels-down"]
+SPELLINGS = [("Ab", "ab"), ("ab", "AB"), ("Ab", "Ab")]
+
+
+def redefinition_matrix(rng, full):
+    """the write-once rule on every ordered pair (current value, new value): 'b' is defined as 'lit' or 'Lit' and 'a' as 'q'
+    (so that '$b' / '${a}x' reach the values by reference), then a third name is defined with v1, used, defined again (other
+    spelling of the name; same, included or including resource) with v2, and used again.  Accepted iff the two EXPANDED
+    values are equal; pairs that differ only in letter case, only by a reference or not at all are all in the matrix.
+    Yields (ops, class); quick tier: every pair once with placement/spelling/use form drawn, thorough: the full product."""
+    for pb in ("lit", "Lit"):
+        defs = {"b": pb, "a": "q"}
+        prelude = [("define", "b", pb), ("define", "A", "q")]
+        for v1 in NEAR_VALUES:
+            for v2 in NEAR_VALUES:
+                e1, e2 = ref_subst(defs, v1.strip()), ref_subst(defs, v2.strip())
+                cls = "equal" if e1 == e2 else "case-only" if e1.lower() == e2.lower() else "different"
+                if v1.strip() != v2.strip() and cls == "equal":
+                    cls = "equal-by-reference"
+                combos = [(p, sp) for p in range(len(PLACEMENTS)) for sp in SPELLINGS] if full else \
+                         [(rng.randrange(len(PLACEMENTS)), rng.choice(SPELLINGS))]
+                for p, (n1, n2) in combos:
+                    u1, u2 = (("use", n2), ("useb", n1)) if rng.random() < 0.5 else (("useb", n2.upper()), ("use", n1.lower()))
+                    d1, d2 = ("define", n1, v1), ("define", n2, v2)
+                    if p == 0:
+                        ops = prelude + [d1, u1, d2, u2]
+                    elif p == 1:
+                        ops = prelude + [d1, u1, ("include", [d2]), u2]
+                    elif p == 2:
+                        ops = prelude + [("include", [d1, u1]), d2, u2]
+                    else:
+                        ops = prelude + [d1, u1, ("include", [("include", [d2, u2])]), u2]
+                    yield ops, "%s/%s" % (cls, PLACEMENTS[p])
 
 
 def with_includes(rng, seq):
@@ -161,6 +215,17 @@ def _run(ctx, obligations, discharged, names):
         c.files = {"m/" + k: v for k, v in files.items()} if files else None
         c.meta = {"main": "m/main.conf", "ops": ops}
         cases.append(c)
+    n_sequences = len(cases)
+    for ops, cls in redefinition_matrix(ctx.rng, ctx.thorough()):
+        files = {}
+        lines = render(ops, files)
+        c = cfgstream.Case()
+        c.sd, c.real, c.elab, c.hnames = sd, real, elab, []
+        c.lines = lines
+        c.files = {"m/" + k: v for k, v in files.items()} if files else None
+        c.meta = {"main": "m/main.conf", "ops": ops, "class": "redefinition-matrix:" + cls}
+        ctx.count("redefinition-matrix:" + cls.split("/")[0])
+        cases.append(c)
     cfgstream.evaluate(ctx, cases)
     second = []
     for c in cases:
@@ -176,8 +241,12 @@ def _run(ctx, obligations, discharged, names):
         if got != exp:
             redefine = sum(1 for o in flatten(c.meta["ops"]) if o[0] == "define") >= 2
             sig = "C05:%s-expected-%s" % (got[0], exp[0])
-            ctx.violate("sequence %r: loader gives %r, the namespace rules give %r" % (c.lines, got, exp),
-                        dict(c.replay(), expected=exp, got=got), signature=sig)
+            if "class" in c.meta:
+                sig += "/" + c.meta["class"].split("/")[0]
+            ctx.violate("sequence %r%s: loader gives %r, the namespace rules give %r"
+                        % (c.lines, " + " + repr(c.files) if c.files else "", got, exp),
+                        dict(c.replay(), expected=exp, got=got, **({"class": c.meta["class"]} if "class" in c.meta else {})),
+                        signature=sig)
         elif c.out[0] == "ok" and len(second) < 400:
             second.append(c)
     # definitions never carry over: the same text again, same schema object, same result
@@ -199,7 +268,8 @@ def _run(ctx, obligations, discharged, names):
     ctx.sample({"lines": cases[len(cases) // 2].lines, "files": cases[len(cases) // 2].files,
                 "expected": ref_run(cases[len(cases) // 2].meta["ops"])})
     ctx.cov["exhaustive"] = True
-    ctx.cov["enumeration"] = {"maxlen": maxlen, "sequences": len(cases)}
+    ctx.cov["enumeration"] = {"maxlen": maxlen, "sequences": n_sequences, "redefinition_matrix": len(cases) - n_sequences,
+                              "matrix_values": len(NEAR_VALUES)}
     return core.finish(ctx, obligations, discharged, names, RULE,
                        "lake build ZCV.Props.C05 && lake env lean ZCV/Audit/C05.lean",
                        ["reference fold written from the property statement (harness/zcv/props/c05.py ref_run)"])
